@@ -58,6 +58,43 @@ def loopCompatOf (iters srcs conds nxt body : List String) : Bool × Option Stri
   | [x] => if body.contains x then (false, none) else (true, some x)
   | _ => (false, none)
 
+mutual
+/-- `SyntaxUtils.has_effect`: the expression contains an assignment, `++` or `--` (generic walk
+    over all children of every node) -/
+def hasEffect : Node → Bool
+  | .assign .. => true
+  | .unop op e => Gen.incDec.contains op || hasEffect e
+  | .binop _ l r => hasEffect l || hasEffect r
+  | .cast e => hasEffect e
+  | .funcCall name args => hasEffect name || hasEffectO args
+  | .exprList es => hasEffectL es
+  | .ternary c t f => hasEffect c || hasEffect t || hasEffect f
+  | .arrayRef n sub => hasEffect n || hasEffect sub
+  | .decl _ ty init => hasEffect ty || hasEffectO init
+  | .declList ds => hasEffectL ds
+  | .compound (some l) => hasEffectL l
+  | .ifs c t f => hasEffect c || hasEffectO t || hasEffectO f
+  | .while_ c b => hasEffect c || hasEffect b
+  | .doWhile c b => hasEffect c || hasEffect b
+  | .for_ i c x b => hasEffectO i || hasEffectO c || hasEffectO x || hasEffect b
+  | .ret e => hasEffectO e
+  | .label _ st => hasEffect st
+  | .switch c b => hasEffect c || hasEffect b
+  | .case_ e ss => hasEffect e || hasEffectL ss
+  | .default_ ss => hasEffectL ss
+  | .paramList ps => hasEffectL ps
+  | .funcDecl a => hasEffectO a
+  | .funcDef d b => hasEffect d || hasEffect b
+  | .other _ _ ks => hasEffectL ks
+  | _ => false
+def hasEffectL : List Node → Bool
+  | [] => false
+  | n :: ns => hasEffect n || hasEffectL ns
+def hasEffectO : Option Node → Bool
+  | none => false
+  | some n => hasEffect n
+end
+
 def isAssertAssume : Node → Bool
   | .id n => n == "assert" || n == "assume"
   | _ => false
@@ -77,15 +114,18 @@ def varsN : Node → M (List String)
   | .doWhile c b => do pure ((← varsN c) ++ (← varsN b))
   | .while_ c b => do pure ((← varsN c) ++ (← varsN b))
   | .for_ init cond next body => do
-    let (iters, srcs) ← initVars init
-    let conds ← varsO cond
-    let nxt ← varsO next
-    let bodyVars ← varsN body
-    let (comp, x) := loopCompatOf iters srcs (normVars conds) (normVars nxt) (normVars bodyVars)
-    let guard := match comp, x with
-      | true, some x => if x.isEmpty then [] else [x]
-      | _, _ => []
-    pure (guard ++ bodyVars)
+    -- `loop_compat` answers "no" for a condition that changes a variable before looking at anything else
+    if hasEffectO cond then varsN body
+    else
+      let (iters, srcs) ← initVars init
+      let conds ← varsO cond
+      let nxt ← varsO next
+      let bodyVars ← varsN body
+      let (comp, x) := loopCompatOf iters srcs (normVars conds) (normVars nxt) (normVars bodyVars)
+      let guard := match comp, x with
+        | true, some x => if x.isEmpty then [] else [x]
+        | _, _ => []
+      pure (guard ++ bodyVars)
   | .funcDef d b => do
     let args ← match d with
       | .decl _ (.funcDecl a) _ => varsO a
@@ -122,6 +162,8 @@ def variables (n : Node) : M (List String) := do pure (normVars (← varsN n))
 /-- `Coverage.loop_compat(node)` for a `For` node -/
 def loopCompat : Node → M (Bool × Option String)
   | .for_ init cond next body => do
+    -- a condition that changes a variable: not an mwp-loop (checked before anything else)
+    if hasEffectO cond then return (false, none)
     let (iters, srcs) ← initVars init
     let conds ← varsO cond
     let nxt ← varsO next
@@ -171,12 +213,17 @@ def covN : Node → M Cov
     pure (match ty, init with
       | .typeDecl, none => ⟨0, 0, n⟩
       | _, _ => ⟨1, 0, n⟩)
-  | .while_ c b => do
-    let (k, b') ← covBody b
-    pure ⟨0, k, .while_ c b'⟩
-  | .doWhile c b => do
-    let (k, b') ← covBody b
-    pure ⟨0, k, .doWhile c b'⟩
+  | n@(.while_ c b) =>
+    -- the analysis does not look at conditions: one that changes a variable makes the statement unsupported
+    if hasEffect c then pure ⟨1, 0, n⟩
+    else do
+      let (k, b') ← covBody b
+      pure ⟨0, k, .while_ c b'⟩
+  | n@(.doWhile c b) =>
+    if hasEffect c then pure ⟨1, 0, n⟩
+    else do
+      let (k, b') ← covBody b
+      pure ⟨0, k, .doWhile c b'⟩
   | n@(.for_ init cond next b) => do
     let (comp, _) ← loopCompat n
     if !comp then pure ⟨1, 0, n⟩
@@ -194,10 +241,12 @@ def covN : Node → M Cov
     let cb ← covN b
     if cb.up > 0 then throw "KeyError"
     pure ⟨0, ka + cb.inner, .funcDef d' cb.mod⟩
-  | .ifs c t f => do
-    let (kt, t') ← covSlot t
-    let (kf, f') ← covSlot f
-    pure ⟨0, kt + kf, .ifs c t' f'⟩
+  | n@(.ifs c t f) =>
+    if hasEffect c then pure ⟨1, 0, n⟩
+    else do
+      let (kt, t') ← covSlot t
+      let (kf, f') ← covSlot f
+      pure ⟨0, kt + kf, .ifs c t' f'⟩
   | .ret none => pure ⟨0, 0, .ret none⟩
   | .ret (some x) => do let c ← covN x; pure ⟨c.up, c.inner, .ret (some c.mod)⟩
   | .case_ e ss => do let (k, ss') ← covList ss; pure ⟨0, k, .case_ e ss'⟩
@@ -242,8 +291,12 @@ def coverage (n : Node) : M (Nat × Node) := do
 mutual
 /-- `FindLoops(node).loops`, in discovery order -/
 def loopsN : Node → M (List Node)
-  | n@(.doWhile _ b) => do pure (n :: (← loopsN b))
-  | n@(.while_ _ b) => do pure (n :: (← loopsN b))
+  | n@(.doWhile c b) => do
+    let inner ← loopsN b
+    pure (if hasEffect c then inner else n :: inner)
+  | n@(.while_ c b) => do
+    let inner ← loopsN b
+    pure (if hasEffect c then inner else n :: inner)
   | n@(.for_ _ _ _ b) => do
     let (comp, _) ← loopCompat n
     let inner ← loopsN b
